@@ -186,7 +186,9 @@ def split_rule(ctx, rule, I):
         pat = v.flags.get("resplit") if isinstance(v, AbsList) else None
         ok = False
         why = f"result {v!r} under {p.cond_labels()[:2]}"[:120]
-        if pat is not None and not v.flags.get("extra_args") and "OPERANDS" in v.src and not any(v.flags.get(k) for k in BAD_LIST_FLAGS):
+        # extra arguments that spell re.split's defaults (no split limit, no flags) change nothing
+        extra = [x for x in (v.flags.get("extra_args") or []) if x not in ("0", "maxsplit=0", "flags=0")] if isinstance(v, AbsList) else []
+        if pat is not None and not extra and "OPERANDS" in v.src and not any(v.flags.get(k) for k in BAD_LIST_FLAGS):
             ast = rx.parse(pat)
             items = rx.seq_items(ast)
             if len(items) == 2 and isinstance(items[0], rx.Char) and items[0].c == "," and isinstance(items[1], rx.Group) \
